@@ -135,9 +135,11 @@ func vVerdictC01(h vHist, log []vEntry) (bool, string) {
 	accepted := map[int]bool{}
 	acceptedAt := map[int]int{} // seq of the accepting verdict
 	closedC := map[int]bool{}
-	onT := map[string]int{}
-	onF := map[string]int{}
-	conn := map[string]int{}
+	// online / connect events are counted per CONNECTION (an id may be empty or shared by several connections; the
+	// connection of an online entry is the one vAttributeOnline matched it to)
+	onT := map[int]int{}
+	onF := map[int]int{}
+	conn := map[int]int{}
 	idOf := map[int]string{}
 	pendingStream := map[string]bool{}
 	inCall := map[int]bool{}
@@ -168,6 +170,9 @@ func vVerdictC01(h vHist, log []vEntry) (bool, string) {
 			if !accepted[x.C] {
 				return false, fmt.Sprintf("seq %d: %s %q for connection %d before any accepted authentication on that connection%s", x.S, x.K, x.Addr, x.C, vElsewhere(log, x, accepted))
 			}
+			if (x.K == "evtcp" || x.K == "evudp") && idOf[x.C] != x.ID {
+				return false, fmt.Sprintf("seq %d: %s on connection %d reported for id %q, the connection was accepted as %q", x.S, x.K, x.C, x.ID, idOf[x.C])
+			}
 		case "stream":
 			pendingStream[strconv.Itoa(x.C)+"/"+x.Addr] = accepted[x.C] && x.Ft == protocol.FrameTypeTCPRequest && !closedC[x.C]
 		case "streamres":
@@ -183,9 +188,9 @@ func vVerdictC01(h vHist, log []vEntry) (bool, string) {
 			}
 		case "online":
 			if x.OK {
-				onT[x.ID]++
+				onT[x.C]++
 			} else {
-				onF[x.ID]++
+				onF[x.C]++
 			}
 			if !accepted[x.C] || idOf[x.C] != x.ID {
 				return false, fmt.Sprintf("seq %d: online state %v for id %q that was not accepted on connection %d%s", x.S, x.OK, x.ID, x.C, vElsewhere(log, x, accepted))
@@ -194,7 +199,7 @@ func vVerdictC01(h vHist, log []vEntry) (bool, string) {
 				return false, fmt.Sprintf("seq %d: offline logged for %q before the connection closed", x.S, x.ID)
 			}
 		case "connect":
-			conn[x.ID]++
+			conn[x.C]++
 			if !accepted[x.C] || idOf[x.C] != x.ID {
 				return false, fmt.Sprintf("seq %d: connect event for id %q on connection %d, for which no Authenticate call has returned that id with an accepting verdict%s", x.S, x.ID, x.C, vElsewhere(log, x, accepted))
 			}
@@ -221,15 +226,15 @@ func vVerdictC01(h vHist, log []vEntry) (bool, string) {
 		}
 	}
 	for c, id := range idOf {
-		if onT[id] != 1 || conn[id] != 1 {
-			return false, fmt.Sprintf("connection %d id %q: online(true) x%d, connect x%d (want exactly one each)", c, id, onT[id], conn[id])
+		if onT[c] != 1 || conn[c] != 1 {
+			return false, fmt.Sprintf("connection %d id %q: online(true) x%d, connect x%d (want exactly one each)", c, id, onT[c], conn[c])
 		}
 		want := 0
 		if closedC[c] {
 			want = 1
 		}
-		if onF[id] != want {
-			return false, fmt.Sprintf("connection %d id %q: online(false) x%d, want %d", c, id, onF[id], want)
+		if onF[c] != want {
+			return false, fmt.Sprintf("connection %d id %q: online(false) x%d, want %d", c, id, onF[c], want)
 		}
 	}
 	for _, x := range log {
